@@ -132,6 +132,8 @@ pub struct SeqProp {
     /// C03: after every program a process-crash image (directory copy while the database is open) is recovered and
     /// every committed batch/transaction must be present entirely or not at all
     pub crash_atomicity_oracle: bool,
+    /// the model is re-synchronised to the implementation after the prefix (prefixes containing a reopen)
+    pub resync_after_prefix: bool,
 }
 
 /// A deterministic compaction filter decided from the key, and the keyspaces it is assigned to.
@@ -212,6 +214,7 @@ impl SeqProp {
             supersede_reopens: 0,
             dedup: false,
             crash_atomicity_oracle: false,
+            resync_after_prefix: false,
         }
     }
 }
@@ -242,6 +245,15 @@ impl Property for SeqProp {
                 w.apply(op).map_err(|v| Violation::new("harness", format!("prefix op {op} failed: {}", v.detail)))?;
             }
             w.journal_deletions.clear();
+        }
+        if self.resync_after_prefix && w.db.is_some() {
+            // the fidelity of a reopen inside the prefix is another property's business (C04): start from what is there
+            let kss: Vec<u8> = w.model.keys().copied().collect();
+            for ks in kss {
+                if let Ok(scanned) = scan_ks(&w.ks[&ks]) {
+                    w.model.insert(ks, scanned);
+                }
+            }
         }
         w.steps = 0;
         w.wit = Witness::default();
@@ -852,6 +864,9 @@ pub fn prefix(name: &str) -> Vec<Op> {
         // a sealed journal holding every record kind, ending in two clear markers (batches without items)
         // (kept back by the lagging y; z is the keyspace whose flush seals it)
         "sealed_journal_all_kinds" => p(&["ins y.a=1", "create z", "ins z.a=1", "ins x.a=1", "batch [x.ab=2 y.b=1]", "rem x.a", "clear x", "clear x", "rotate z", "step+jrot WorkerMessage:Flush"]),
+        // a recovered database: data in a table and in the (replayed) memtable; everything that follows runs on the
+        // objects `Database::recover` builds, not on the ones `create_new` builds
+        "reopened_with_data" => p(&["ins x.a=1", "ins x.b=1", "rotate x", "step WorkerMessage:Flush", "ins x.ab=2", "ins y.a=1", "reopen"]),
         // a cross-keyspace batch whose first keyspace has been flushed, the other not
         "batch_half_flushed" => p(&["ins y.b=1", "batch [x.a=2 y.a=1]", "rotate x", "step WorkerMessage:Flush"]),
         other => panic!("unknown prefix {other}"),
